@@ -168,6 +168,7 @@ type ctl struct {
 	br        []byte           // per decision: number of options, choice (base 36)
 	partial   int              // decisions taken while a live instance was not parked
 	fine      bool             // park also at the scheduling points inside the schedule's Next / Left
+	comp      bool             // fine, composite profile: the points are the ones before its Lock / RLock (between its critical sections), not the leaf's
 	pending   map[int][]string // fine: the shared-state accesses the parked instance performs when it goes on
 	// sctl: the goroutine that starts the instances (startInstances) is a controlled participant too: it parks before
 	// every Next() of the startup schedule, so instances can run, finish, run out of ammo … before the others exist
@@ -268,6 +269,11 @@ func (r *recorder) yield(point string) {
 	bar := strings.IndexByte(point, '|')
 	if bar < 0 || bar == len(point)-1 {
 		return // a statement without shared access: no scheduling point needed
+	}
+	// a composite's points are the ones before its Lock / RLock statements; the points inside the leaves are then inside
+	// the composite's critical sections and must not park
+	if strings.HasSuffix(point, "Lock") != c.comp {
+		return
 	}
 	g := goid()
 	r.mu.Lock()
